@@ -300,6 +300,8 @@ fn find_vars(name: &str, proc_name: &str, program: &Program) -> Vec<Identifier> 
                 idents.extend(new_idents);
                 idents
             }
+            Bracketed(b) => find_in_expression(&b.expr, name),
+            Unary(u) => find_in_expression(&u.expr, name),
             _ => Vec::new(),
         }
     }
